@@ -603,7 +603,16 @@ func (bc *BlockChain) HasBlock(hash common.Hash, number uint64) bool {
 
 // HasState checks if state trie is fully present in the database or not.
 func (bc *BlockChain) HasState(hash common.Hash) bool {
-	_, err := bc.stateCache.OpenTrie(hash)
+	if _, err := bc.stateCache.OpenTrie(hash); err != nil {
+		return false
+	}
+	// The state database also answers from its cache of recently committed tries. The trie
+	// itself may be gone by then (a pruning node garbage collects side blocks far below its
+	// head): only what the node database still holds is present.
+	if hash == (common.Hash{}) || hash == types.EmptyRootHash {
+		return true
+	}
+	_, err := bc.stateCache.TrieDB().Node(hash)
 	return err == nil
 }
 
